@@ -10,10 +10,15 @@ op 800: one case = a whole history, every argument one step (see Run/DispVerif.v
   RequestId(...) / RequestId.unpack, the create_*_tm helpers, Service1Tm.unpack / from_tm of the packed report,
   helper + the telecommand edited before the report is fed; RequestId(...), unpack, from_sp_header, from_pus_tc.
   Every TmCheckResult handed out is kept and re-read after every later step and at the end of the history.
+  path // 6 (ignored by the model: the state machine sees the request id only) selects every field of the telecommand
+  that does NOT enter the request id: ack flags (all 16 values), service / subservice, source id, application data
+  (_tc_fields); the caller edits [4, ...] also reach the secondary header (ack flags, source id) and the application data.
+op 802: the same steps on ONE tracker for tens of thousands of operations (dependence on the NUMBER of earlier calls):
+  observed are the return value of every step and the dictionary once, at the end.
 op 801: one transition: a0 = status [recvd, accepted, started, step, completed, step_list...] installed directly
   in the dictionary, a1 = [sub, has_step, step] fed through the real add_tm.
 Observed after every call: the return value and the whole dictionary (insertion order)."""
-import itertools
+import itertools, sys
 from spacepackets.ccsds.spacepacket import PacketId, PacketSeqCtrl, PacketType, SequenceFlags, SpacePacketHeader
 from spacepackets.ecss import PusTc, PusTm
 from spacepackets.ecss.tc import PusTcDataFieldHeader
@@ -23,6 +28,8 @@ from spacepackets.ecss.pus_1_verification import (Service1Tm, VerificationParams
                                                   FailureNotice, UnpackParams)
 from spacepackets.ecss.pus_verificator import PusVerificator, VerificationStatus, StatusField
 from harness.core import classify_exception
+from harness import core
+from harness.props.c13 import _Clock     # simulated pauses between calls (see c13.py)
 
 ID = "C16"
 _PV = "spacepackets.ecss.pus_verificator:"
@@ -56,6 +63,8 @@ ASSUMPTIONS = [
 ]
 TRUSTED = []
 TS = bytes(7)
+LONG_PROBE_PREFIX = 300
+core.NO_THREAD_OPS.add(802)     # seconds per history: concurrent callers are probed on the short histories (op 800)
 
 
 def _hdr(i, data_len=0):
@@ -63,24 +72,54 @@ def _hdr(i, data_len=0):
     return SpacePacketHeader(PacketType(t), ap, c, data_len, bool(s), SequenceFlags(fl), v)
 
 
+_SERVICES = [(17, 1), (3, 25), (8, 128), (255, 255), (0, 0), (1, 1)]
+_SOURCES = [0, 1, 0xFFFF, 0x1234]
+_APP_DATA = [b"", b"\x00", bytes(range(16)), b"\xff" * 300]
+N_TC_VARIANTS = 16 * len(_SERVICES) * len(_SOURCES) * len(_APP_DATA)
+
+
+def _tc_fields(var):
+    """the fields of a telecommand that do not enter its request id; variant 0 = the constructor defaults"""
+    ack = 15 - var % 16
+    var //= 16
+    svc, sub = _SERVICES[var % len(_SERVICES)]
+    var //= len(_SERVICES)
+    src = _SOURCES[var % len(_SOURCES)]
+    var //= len(_SOURCES)
+    return ack, svc, sub, src, _APP_DATA[var % len(_APP_DATA)]
+
+
 def _tc(i, path=0):
     """a telecommand object whose space packet header carries id6, built along the requested path
     (or, where that path cannot produce the header, by assigning the header)"""
     v, t, s, ap, fl, c = i
     std = (v, t, s, fl) == (0, 1, 1, 3)   # what PusTc(...) always produces
+    ack, svc, sub, src, app = _tc_fields(path // 6)
+    dflt = path // 6 == 0
     path %= 6
     if path == 0 and std:
-        return PusTc(apid=ap, seq_count=c, service=17, subservice=1)
+        if dflt:
+            return PusTc(apid=ap, seq_count=c, service=17, subservice=1)
+        return core.build(PusTc, service=svc, subservice=sub, apid=ap, app_data=app, seq_count=c, source_id=src, ack_flags=ack)
     if path == 1 and (t, s) == (1, 1):    # from_sp_header forces packet type TC and the secondary header flag
-        return PusTc.from_sp_header(_hdr(i), service=17, subservice=1)
+        if dflt:
+            return PusTc.from_sp_header(_hdr(i), service=17, subservice=1)
+        return core.build(PusTc.from_sp_header, sp_header=_hdr(i), service=svc, subservice=sub, app_data=app, source_id=src, ack_flags=ack)
     if path == 2 and t == 1:              # from_composite_fields refuses packet type TM
-        return PusTc.from_composite_fields(_hdr(i, 6), PusTcDataFieldHeader(17, 1))
+        if dflt:
+            return PusTc.from_composite_fields(_hdr(i, 6), PusTcDataFieldHeader(17, 1))
+        return PusTc.from_composite_fields(_hdr(i, 6 + len(app)), core.build(PusTcDataFieldHeader, service=svc, subservice=sub, source_id=src, ack_flags=ack), app)
     if path == 5 and std:                 # setters on an empty telecommand
         tc = PusTc.empty()
         tc.apid = ap
         tc.seq_count = c
+        if not dflt:
+            tc.pus_tc_sec_header.ack_flags = ack
+            tc.pus_tc_sec_header.service, tc.pus_tc_sec_header.subservice = svc, sub
+            tc.source_id = src
+            tc.app_data = app
         return tc
-    tc = PusTc(service=17, subservice=1)
+    tc = PusTc(service=17, subservice=1) if dflt else PusTc(service=svc, subservice=sub, source_id=src, ack_flags=ack, app_data=app)
     tc.sp_header = _hdr(i, tc.sp_header.data_len)
     if path == 3:                         # through the wire format
         raw = tc.pack()
@@ -96,7 +135,7 @@ def _reqid(i, path=0, caller=None):
     if path == 2:
         return RequestId.from_sp_header(_hdr(i))
     if path == 3:
-        tc = _tc(i, 4)
+        tc = _tc(i, 4 + 6 * ((i[5] * 31 + i[3]) % N_TC_VARIANTS))
         if caller is not None:
             caller.tcs.setdefault(tuple(i), []).append(tc)
         return RequestId.from_pus_tc(tc)
@@ -107,8 +146,26 @@ def _step(val):
     return PacketFieldEnum.with_byte_size(1 if val < 256 else 2 if val < 65536 else 4, val)
 
 
-def _notice():
+def _notice(kind=0):
+    if kind:
+        return FailureNotice(PacketFieldEnum.with_byte_size(2, 0xABCD), data=bytes(range(40)))
     return FailureNotice(PacketFieldEnum.with_byte_size(1, 8), data=bytes([0, 1]))
+
+
+_TM_STAMPS = [TS, b"\xff" * 7, b"\x01\x02"]
+N_TM_VARIANTS = 3 * 3 * len(_TM_STAMPS) * 2 * 2
+
+
+def _tm_fields(i, var):
+    """the fields of a report that the tracker's documented behaviour does not depend on: APID, sequence count and
+    destination id of the report itself, its time stamp, the failure notice; variant 0 = what the harness always used"""
+    apid = (i[3], 0, 0x7FF)[var % 3]
+    var //= 3
+    seq = (0, 16383, 1)[var % 3]
+    var //= 3
+    ts = _TM_STAMPS[var % len(_TM_STAMPS)]
+    var //= len(_TM_STAMPS)
+    return apid, seq, ts, (0, 0xFFFF)[var % 2], (var // 2) % 2
 
 
 _HELPERS = {1: "create_acceptance_success_tm", 2: "create_acceptance_failure_tm", 3: "create_start_success_tm",
@@ -117,20 +174,21 @@ _HELPERS = {1: "create_acceptance_success_tm", 2: "create_acceptance_failure_tm"
 
 
 def _tm(i, sub, has_step, step, path=0, caller=None):
+    apid, seq, ts, dest, nk = _tm_fields(i, path // 6)
     path %= 6
     sv = Subservice(sub) if 0 <= sub <= 8 else sub
     if sub in (5, 6) and not has_step:
         # a report object without step id (constructor default parameters, request id set afterwards)
-        tm = Service1Tm(apid=i[3], subservice=sv, timestamp=TS)
+        tm = Service1Tm(apid=apid, subservice=sv, timestamp=ts)
         tm.tc_req_id = _reqid(i, path, caller)
         return tm
     assert sub in (5, 6) or not has_step
     if path in (2, 5) and 1 <= sub <= 8:
         # the helper functions read the request id from a telecommand object
-        tc = _tc(i, 4)
+        tc = _tc(i, 4 + 6 * ((sub * 37 + step * 5 + i[5]) % N_TC_VARIANTS))
         if caller is not None:
             caller.tcs.setdefault(tuple(i), []).append(tc)
-        args = [i[3], tc] + ([_step(step)] if sub in (5, 6) else []) + ([_notice()] if sub % 2 == 0 else []) + [TS]
+        args = [apid, tc] + ([_step(step)] if sub in (5, 6) else []) + ([_notice(nk)] if sub % 2 == 0 else []) + [ts]
         tm = getattr(p1, _HELPERS[sub])(*args)
         if path == 5:
             # the caller goes on using its telecommand object (next sequence count, other APID) before it
@@ -139,15 +197,16 @@ def _tm(i, sub, has_step, step, path=0, caller=None):
             tc.apid = (i[3] + 1) % 2048
             tc.sp_header.seq_flags = SequenceFlags((i[4] + 1) % 4)
         return tm
-    fn = _notice() if sub % 2 == 0 else None
-    tm = Service1Tm(apid=i[3], subservice=sv, timestamp=TS,
-                    verif_params=VerificationParams(_reqid(i, 1 if path == 1 else 0), step_id=_step(step) if has_step else None, failure_notice=fn))
+    fn = _notice(nk) if sub % 2 == 0 else None
+    tm = core.build(Service1Tm, apid=apid, subservice=sv, timestamp=ts,
+                    verif_params=VerificationParams(_reqid(i, 1 if path == 1 else 0), step_id=_step(step) if has_step else None, failure_notice=fn),
+                    seq_count=seq, packet_version=0, space_time_ref=0, destination_id=dest)
     if path in (3, 4) and 1 <= sub <= 8:
         raw = tm.pack()
-        up = UnpackParams(len(TS), bytes_step_id=_step(step).len() if has_step else 1, bytes_err_code=1)
+        up = UnpackParams(len(ts), bytes_step_id=_step(step).len() if has_step else 1, bytes_err_code=2 if nk else 1)
         if path == 3:
             return Service1Tm.unpack(bytes(raw) if step % 2 else raw, up)
-        return Service1Tm.from_tm(PusTm.unpack(raw, len(TS)), up)
+        return Service1Tm.from_tm(PusTm.unpack(raw, len(ts)), up)
     return tm
 
 
@@ -199,8 +258,16 @@ class _Caller:
                         tc.sp_header.seq_flags = SequenceFlags(val % 4)
                     elif what == 3:
                         tc.sp_header.packet_type = PacketType(val % 2)
-                    else:
+                    elif what == 4:
                         tc.sp_header.sec_header_flag = bool(val % 2)
+                    elif what == 5:
+                        tc.pus_tc_sec_header.ack_flags = val % 16
+                    elif what == 6:
+                        tc.app_data = bytes(val % 9)
+                    elif what == 7:
+                        tc.source_id = val % 65536
+                    else:
+                        tc.pus_tc_sec_header.service, tc.pus_tc_sec_header.subservice = val % 256, (val // 256) % 256
                 return [1]
             r = v.remove_completed_entries()
             assert r is None
@@ -223,12 +290,30 @@ FIXED_ID = [0, 1, 1, 5, 3, 7]
 
 def impl(op, a):
     if op == 800:
+        # two histories out of three: pauses (simulated, see c13._Clock) of seconds .. minutes / of hours .. years between
+        # consecutive tracker calls; the documented state machine has no notion of time
+        with _Clock((len(a) + sum(len(o) for o in a[:3])) % 3) as clock:
+            c = _Caller()
+            out = []
+            for k, o in enumerate(a):
+                clock.advance(k)
+                out += [c.call(o)] + _dict(c.v)
+                c.recheck()
+            return out + c.final()
+    if op == 802:
         c = _Caller()
-        out = []
-        for o in a:
-            out += [c.call(o)] + _dict(c.v)
-            c.recheck()
-        return out + c.final()
+        if sys.getprofile() is not None:
+            # the live-object probe (harness/liveprobe.py) snapshots every object created during the call and compares
+            # them pairwise with every buffer handed out: quadratic in the history length.  Under its profiler only the
+            # first steps are driven (the probe looks at objects, not at results); the full history runs unprofiled.
+            a = a[:LONG_PROBE_PREFIX]
+        with _Clock(1 + len(a) % 2) as clock:
+            out = []
+            for k, o in enumerate(a):
+                if k % 64 == 0:
+                    clock.advance(k // 64)
+                out.append(c.call(o))
+            return out + _dict(c.v)
     if op == 801:
         s = a[0]
         v = PusVerificator()
@@ -309,16 +394,83 @@ def random_op(rng, pool, strangers, p_edit=0.0):
     """one step over the telecommands of pool (registered now and then) and strangers (never registered)"""
     x = rng.random()
     if x < 0.22:
-        return [0] + rng.choice(pool) + [rng.randrange(6)]
+        return [0] + rng.choice(pool) + [rng.randrange(6) + 6 * rng.choice([0, rng.randrange(N_TC_VARIANTS)])]
     if x < 0.80:
         i = rng.choice(pool * 3 + strangers) if strangers else rng.choice(pool)
         sub = rng.choice([1, 2, 3, 4, 5, 6, 7, 8] * 6 + [0, 9, 255])
-        return tm_auto(i, sub, rng, rng.randrange(5))
+        return tm_auto(i, sub, rng, rng.randrange(5) + 6 * rng.choice([0, rng.randrange(N_TM_VARIANTS)]))
     if x < 0.80 + p_edit:
-        return [4] + rng.choice(pool) + [rng.randrange(5), rng.randrange(16384)]
+        return [4] + rng.choice(pool) + [rng.randrange(9), rng.randrange(16384)]
     if x < 0.93:
         return [2] + rng.choice(pool + strangers[:2]) + [rng.randrange(4)]
     return [3]
+
+
+
+def _variant(rng):
+    """construction path + fields outside the request id (half of the time the constructor defaults)"""
+    return rng.randrange(6) + 6 * rng.choice([0, rng.randrange(N_TC_VARIANTS)])
+
+
+def long_history(rng, n, kind):
+    """one tracker, six early telecommands in different states, then n further registrations (kind 0: they stay
+    registered, 1: a small pool registered and removed over and over, 2: n further calls of every other kind), then
+    the early ones are registered again (duplicates: refused whatever their state and age), reported on, removed
+    when finished and registered once more"""
+    E = [[0, 1, 1, 5, 3, c] for c in range(6)]
+    ops = [[0] + e + [_variant(rng)] for e in E]
+    ops += [tm(E[0], 1), tm(E[0], 3), tm(E[0], 7),                      # finished
+            tm(E[1], 2),                                                # finished by an acceptance failure
+            tm(E[2], 1), tm(E[2], 3),                                   # started, not finished
+            tm(E[4], 1), tm(E[4], 3), tm(E[4], 5, 2), tm(E[4], 6, 3),   # finished by a failed step
+            tm(E[5], 7)]                                                # completion report alone: not finished
+    stranger = [0, 1, 1, 4, 3, 0]
+    if kind == 0:
+        for j in range(n):
+            i = [0, 1, 1, 5 + (6 + j) // 16384, 3, (6 + j) % 16384]
+            ops.append([0] + i + [_variant(rng)])
+            if j % 997 == 3:
+                ops.append(tm(i, 1, None, j % 5))
+            if j % 2503 == 7:
+                ops.append([0] + i + [_variant(rng)])                   # duplicate of a recent one
+            if j % 1999 == 11:
+                ops += [tm(i, 1), tm(i, 3), tm(i, 8)]                   # finished, stays registered
+            if j % 3001 == 13:
+                ops.append([2] + i + [j % 4])
+            if j % 4001 == 17:
+                ops.append([0] + E[(j // 4001) % 6] + [_variant(rng)])  # an early one again, at any point
+    elif kind == 1:
+        pool = [[0, 1, 1, 6, 3, c] for c in range(7)]
+        for j in range(n):
+            i = pool[j % 7]
+            ops.append([0] + i + [_variant(rng)])
+            if j % 5 == 0:
+                ops += [tm(i, 1), tm(i, 3), tm(i, 7)]
+            if j % 1013 == 5:
+                ops.append([0] + E[(j // 1013) % 6] + [_variant(rng)])
+            ops.append([2] + i + [j % 4])
+    else:
+        for j in range(n):
+            x = j % 11
+            if x < 3:
+                ops.append(tm(E[3], (1, 3, 1)[x], None, j % 5))
+            elif x < 5:
+                ops.append([0] + E[j % 6] + [_variant(rng)])            # refused: counts attempts
+            elif x == 5:
+                ops.append(tm(stranger, 1 + j % 8, j % 300 if 1 + j % 8 in (5, 6) else None))
+            elif x == 6:
+                ops.append([2] + stranger + [j % 4])
+            elif x == 7:
+                ops.append([4] + E[j % 6] + [j % 9, j])
+            elif x == 8 and j % 1100 == 8:
+                ops.append(tm(E[2], 5, j % 70000))
+            else:
+                ops.append(tm(E[0], 1 + 2 * (j % 2)))
+    ops += [[0] + e + [_variant(rng)] for e in E]
+    ops += [tm(E[0], 7), tm(E[2], 5, 9), tm(E[3], 1), [3]]
+    ops += [[0] + e + [_variant(rng)] for e in E]
+    ops += [tm(E[0], 1), [2] + E[2], [0] + E[2], tm(E[1], 4), [3], [0] + E[1]]
+    return (802, ops)
 
 
 def streams(tier, rng):
@@ -447,6 +599,59 @@ def streams(tier, rng):
                 ops = [[0] + i + [pt], [4] + i + [what, val], tm(i, 1), [0] + i + [pt], tm(i, 7, None, 5), [4] + i + [what, val + 1], [2] + i, [3]]
                 cases.append((800, ops))
     yield "caller_edits_its_telecommands", "exact", cases
+    # 10. the fields of a telecommand that do not enter its request id: all 16 ack-flag values x every report
+    #     sequence of length <= 2 (thorough 3) x construction paths; then random histories in which every
+    #     registration has its own ack flags / service / subservice / source id / application data and the
+    #     caller goes on editing those fields.  The state machine depends on the request id only.
+    cases = []
+    for ack in range(16):
+        for n in range(0, 4 if big else 3):
+            for seq in itertools.product(range(1, 9), repeat=n):
+                var = (15 - ack) + 16 * (len(cases) % (N_TC_VARIANTS // 16) if len(cases) % 3 == 0 else 0)
+                ops = [[0] + TCS[0] + [len(cases) % 6 + 6 * var]] + [tm(TCS[0], s_, j + 1 if s_ in (5, 6) else None) for j, s_ in enumerate(seq)] + [[3]]
+                cases.append((800, ops))
+    yield "exh_ack_flags_x_report_sequences", "exact", cases
+    # 10b. the fields of a report other than (request id, subservice, step): its own APID / sequence count / destination
+    #      id, time stamp, failure notice - every variant x every construction path of the report, four report chains
+    cases = []
+    chains = [(1, 3, 5, 7), (2,), (1, 4), (1, 3, 6, 8), (3, 8), (5, 6)]
+    for var in range(N_TM_VARIANTS):
+        for pr in range(6):
+            ch = chains[(var + pr) % len(chains)]
+            p_ = pr + 6 * var
+            ops = [[0] + TCS[0] + [pr]] + [tm(TCS[0], s_, 300 * j + 7 if s_ in (5, 6) else None, p_) for j, s_ in enumerate(ch)] + \
+                  [tm(STRANGERS[var % len(STRANGERS)], 1, None, p_), [3]]
+            cases.append((800, ops))
+    yield "exh_report_fields_outside_request_id", "exact", cases
+    cases = []
+    for _ in range(16000 if big else 2000):
+        pool = rng.sample(TCS + [[0, 1, 1, 6, 3, 7], [0, 1, 1, 5, 3, 6]], rng.randrange(1, 4))
+        ops = [[0] + t + [rng.randrange(6) + 6 * rng.randrange(N_TC_VARIANTS)] for t in pool]
+        for _ in range(rng.randrange(2, 12)):
+            x = rng.random()
+            t = rng.choice(pool)
+            if x < 0.6:
+                ops.append(tm_auto(t, rng.randrange(1, 9), rng, rng.randrange(6) + 6 * rng.randrange(N_TM_VARIANTS)))
+            elif x < 0.75:
+                ops.append([4] + t + [rng.randrange(4, 9), rng.randrange(65536)])
+            elif x < 0.85:
+                ops += [[2] + t + [rng.randrange(4)], [0] + t + [rng.randrange(6) + 6 * rng.randrange(N_TC_VARIANTS)]]
+            elif x < 0.93:
+                ops.append([0] + t + [rng.randrange(6) + 6 * rng.randrange(N_TC_VARIANTS)])
+            else:
+                ops.append([3])
+        cases.append((800, ops))
+    yield "tc_fields_outside_request_id", "exact", cases
+    # 11. dependence on the NUMBER of earlier operations: one tracker, 16384 .. 20000 (thorough 70000) registrations
+    #     (all kept / a small pool registered and removed again / further calls of every other kind), early telecommands
+    #     finished and unfinished registered again at the end
+    cases = [long_history(rng, 16384 + rng.randrange(0, 64), 0),
+             long_history(rng, rng.randrange(16400, 20001), 1),
+             long_history(rng, 20000, 2)]
+    if big:
+        cases += [long_history(rng, 70000, 1), long_history(rng, 66000 + rng.randrange(0, 4001), 0), long_history(rng, 32768 + rng.randrange(8), 1),
+                  long_history(rng, 70000, 2)]
+    yield "long_histories_one_tracker", "exact", cases
 
 
 # ------------------------------------------------------------------ oracle
@@ -496,6 +701,56 @@ def oracle_spec(case, ires):
     return []
 
 
+def oracle_long(a, ires):
+    """op 802: the documented state machine (table) on a total map, return value by return value, and the
+    dictionary at the end; independent of the Coq model"""
+    n = len(a)
+    if len(ires) < n + 2:
+        return ("C16/PusVerificator/adapter", "long history: %d result lines for %d steps" % (len(ires), n))
+    ref = {}
+    regs = 0
+    for j, (o, ret) in enumerate(zip(a, ires[1:1 + n])):
+        kind = o[0] if o else 3
+        k = key_of(o[1:7]) if kind in (0, 1, 2) else None
+        sig = None
+        if kind == 0:
+            exp, sig = ([0, 0] if k in ref else [0, 1]), "add_tc"
+            if k not in ref:
+                ref[k] = [0, -1, -1, -1, -1]
+                regs += 1
+        elif kind == 1:
+            if k not in ref:
+                exp, sig = [1], "unknown-request-id"
+            else:
+                t = table(o[7], o[9], ref[k])
+                sig = "state-machine"
+                if t is None:
+                    exp = [3, 1]
+                else:
+                    ref[k] = t[0]
+                    exp = [2, int(t[1])] + t[0]
+        elif kind == 2:
+            exp, sig = [0, int(k in ref)], "remove_entry"
+            ref.pop(k, None)
+        elif kind == 4:
+            exp, sig = [1], "caller-edit-reaches-tracker"
+        else:
+            for kk in [kk for kk, st in ref.items() if st[0]]:
+                del ref[kk]
+            exp, sig = [1], "remove_completed_entries"
+        got = [3, 1] if ret[0] == 3 and ret[1] in (1, 2, 3) else ret
+        if got != exp:
+            return ("C16/PusVerificator/" + sig, "step %d of one tracker's history (%d telecommands registered so far, %d entries): call %s "
+                    "returned %s, documented state machine: %s" % (j, regs, len(ref), o, ret, exp))
+    exp_d = [[len(ref)]] + [[kk] + st for kk, st in ref.items()]
+    if ires[1 + n:] != exp_d:
+        got = ires[1 + n:]
+        bad = next((x for x, y in zip(got, exp_d) if x != y), got[-1:] or None)
+        return ("C16/PusVerificator/state-machine", "after %d steps on one tracker (%d registrations) the dictionary has %s entries, first "
+                "difference %s; documented state machine: %d entries" % (n, regs, got[0] if got else None, bad, len(ref)))
+    return None
+
+
 def oracle(case, ires, sres):
     op, a = case
     if ires[0] != [0]:
@@ -529,6 +784,8 @@ def oracle(case, ires, sres):
         if sres and sres[0][1] != [0, int(done)] + st2:
             return ("C16/spec/table", "Coq table %s disagrees with the reference table %s" % (sres[0][1], st2))
         return None
+    if op == 802:
+        return oracle_long(a, ires)
     if op != 800 or not _in_spec(a):
         return None
     obs, rest = split_obs(ires, len(a))
